@@ -475,6 +475,11 @@ func RunScenario(t *testing.T, rec *Recorder, sc *Scenario) {
 				completed := false
 				t.Run(fmt.Sprintf("%s/fuzz%d", name, j), func(st *testing.T) {
 					defer func() {
+						// a panic escaping the fuzz target is a crash (Fatalf / SkipNow end the goroutine with Goexit, not with a panic)
+						if p := recover(); p != nil {
+							status = "crashed"
+							return
+						}
 						switch {
 						case st.Failed():
 							status = "failed"
